@@ -4965,4 +4965,129 @@ theorem cloneFresh : ∀ f, CloneFresh f
               obtain ⟨kv, hkv, rfl⟩ := hw
               exact (hitems kv hkv).mono (by omega)
 
+/-! ## container assignment rebinds the target only (C04-r4) -/
+
+/-- root `j` is not written and every block that was live keeps its elements (blocks may be appended, released, recounted) -/
+def KeepsRoot (j : Nat) (σ σ' : State) : Prop :=
+  σ'.slots[j]? = σ.slots[j]? ∧ ∃ y, SubItems (σ.heap ++ y) σ'.heap
+
+theorem KeepsRoot.refl (j : Nat) (σ : State) : KeepsRoot j σ σ := ⟨rfl, [], by simpa using SubItems.refl σ.heap⟩
+
+/-- a root that a statement keeps denotes afterwards the tree it denoted before -/
+theorem KeepsRoot.content {j : Nat} {σ σ' : State} (k : KeepsRoot j σ σ') (inv' : Inv σ' []) :
+    slotV σ' j = slotV σ j ∧ ∀ f tr, content f σ.heap (slotV σ j) = some tr → content f σ'.heap (slotV σ' j) = some tr := by
+  obtain ⟨hs, y, sub⟩ := k
+  have hsl : slotV σ' j = slotV σ j := by simp [slotV, List.getD_eq_getElem?_getD, hs]
+  refine ⟨hsl, fun f tr hc => ?_⟩
+  rw [hsl]
+  cases hh : handleOf (slotV σ j) with
+  | none => rw [content_scalar_indep hh f σ.heap σ'.heap]; exact hc
+  | some id =>
+    have hmem : slotV σ j ∈ σ'.slots := by
+      rw [← hsl]
+      have : handleOf (slotV σ' j) = some id := by rw [hsl]; exact hh
+      unfold slotV at this ⊢
+      rw [List.getD_eq_getElem?_getD] at this ⊢
+      cases hg : σ'.slots[j]? with
+      | none => rw [hg] at this; cases this
+      | some w => exact List.mem_of_getElem? hg
+    have h1 := content_mono (getB_append_mono (h := σ.heap) y) f _ tr hc
+    exact content_sub sub inv'.wf f _ tr (Or.inl (by simpa using hmem)) h1
+
+theorem replaceSlot_keepsRoot {σ σ' : State} {k j : Nat} {v : V} {T : List V} (inv : Inv σ (v :: T))
+    (h : replaceSlot σ k v = .ok σ') (hj : j ≠ k) : σ'.slots[j]? = σ.slots[j]? ∧ SubItems σ.heap σ'.heap := by
+  obtain ⟨hslots, _, hsub⟩ := replaceSlot_spec inv h
+  exact ⟨by rw [hslots, List.getElem?_set_ne (Ne.symm hj)], hsub⟩
+
+/-- `operator=(const Var&)` on a root variable: only that root is written, live blocks keep their elements -/
+theorem assignV_slot_keeps {σ σ' : State} {x : Nat} {src : V} (inv : Inv σ []) (hx : x < σ.slots.length) (hs : LiveV σ.heap src)
+    (ha : assignV σ (.slot x) src = .ok σ') : σ'.slots = σ.slots.set x src ∧ SubItems σ.heap σ'.heap := by
+  have hl : ValidLoc σ (.slot x) := hx
+  obtain ⟨old, hr, _⟩ := readLoc_valid hl []
+  unfold assignV at ha
+  rw [hr] at ha
+  dsimp only at ha
+  split at ha
+  · simp only [writeLoc, hx, if_true, Except.ok.injEq] at ha
+    subst ha
+    exact ⟨rfl, SubItems.refl _⟩
+  · obtain ⟨h1, hc, inv1, same⟩ := inv.copyLive hs
+    simp only [hc] at ha
+    have hl1 : ValidLoc { σ with heap := h1 } (.slot x) := hx
+    obtain ⟨σ2, old', hr', hw, inv2, _, _⟩ := inv1.writeLoc hl1 (fun id c hp _ _ => by simp [parentOf] at hp)
+    rw [readLoc_same same (.slot x) hr] at hr'; cases hr'
+    have hw2 := hw
+    simp only [writeLoc, hx, if_true, Except.ok.injEq] at hw2
+    simp only [hw] at ha
+    by_cases hp : isPod old = true
+    · simp only [hp, if_true, Except.ok.injEq] at ha
+      subst ha; subst hw2
+      exact ⟨rfl, SubItems.of_same same⟩
+    · simp only [hp] at ha
+      obtain ⟨h3, hd, _, sub⟩ := Inv.drop (σ := σ2) (wl := [old]) (T := []) (by simpa using inv2)
+      simp only [hd, Bool.false_eq_true, if_false, Except.ok.injEq] at ha
+      subst ha; subst hw2
+      exact ⟨rfl, (SubItems.of_same same).trans sub⟩
+
+
+theorem applyOp_ctorArr_keeps {σ : State} (inv : Inv σ []) (t j : Nat) (lits : List Lit) (hj : j ≠ t) :
+    KeepsRoot j σ (applyOp true σ (.ctorArr t lits)).1 := by
+  simp only [applyOp, targetOf, rootOp, opCtorArr, allocB]
+  cases h : replaceSlot { σ with heap := σ.heap ++ [some { isObj := false, items := lits.map (fun l => (([] : Bytes), l.toV)), cap := litCap lits.length, rc := 1 }] } t (.arr σ.heap.length) with
+  | error e => exact KeepsRoot.refl j σ
+  | ok σ' =>
+    have hb : bvals { isObj := false, items := lits.map (fun l => (([] : Bytes), l.toV)), cap := litCap lits.length, rc := 1 } = lits.map Lit.toV := by
+      simp [bvals, List.map_map, Function.comp_def]
+    have inv3 := Inv.alloc (σ := σ) (T := [])
+      (b := { isObj := false, items := lits.map (fun l => (([] : Bytes), l.toV)), cap := litCap lits.length, rc := 1 })
+      (by rw [hb]; exact Inv.scalars inv _ (by intro v hv; obtain ⟨l, _, rfl⟩ := List.mem_map.mp hv; exact Lit.toV_scalar l)) rfl
+      (by intro h; cases h)
+    obtain ⟨h1, h2⟩ := replaceSlot_keepsRoot inv3 h hj
+    exact ⟨h1, _, h2⟩
+
+theorem applyOp_ctorDic_keeps {σ : State} (inv : Inv σ []) (t j : Nat) (pairs : List (Bytes × Lit)) (hj : j ≠ t) :
+    KeepsRoot j σ (applyOp true σ (.ctorDic t pairs)).1 := by
+  simp only [applyOp, targetOf, rootOp, opCtorDic]
+  obtain ⟨items, h1, hs, hv⟩ := dicOfPairs_spec (pairs.map fun kl => (kl.1, kl.2.toV)) [] (by simp [SortedItems, AslProofs.Map.Sorted])
+  rw [h1]; simp only [allocB]
+  cases h : replaceSlot { σ with heap := σ.heap ++ [some { isObj := true, items := items, cap := litCap items.length, rc := 1 }] } t (.obj σ.heap.length) with
+  | error e => exact KeepsRoot.refl j σ
+  | ok σ' =>
+    have inv3 := Inv.alloc (σ := σ) (T := []) (b := { isObj := true, items := items, cap := litCap items.length, rc := 1 })
+      (by
+        have := Inv.scalars inv (items.map (·.2)) (fun v hv' => by
+          rcases hv v hv' with h0 | h0
+          · simp at h0
+          · simp only [List.map_map, List.mem_map] at h0; obtain ⟨kl, _, rfl⟩ := h0; exact Lit.toV_scalar _)
+        exact this) rfl (fun _ => hs)
+    obtain ⟨h1, h2⟩ := replaceSlot_keepsRoot inv3 h hj
+    exact ⟨h1, _, h2⟩
+
+theorem applyOp_drop_keeps {σ : State} (inv : Inv σ []) (t j : Nat) (hj : j ≠ t) :
+    KeepsRoot j σ (applyOp true σ (.drop t)).1 := by
+  simp only [applyOp, targetOf, rootOp]
+  cases h : replaceSlot σ t V.none with
+  | error e => exact KeepsRoot.refl j σ
+  | ok σ' =>
+    obtain ⟨h1, h2⟩ := replaceSlot_keepsRoot (T := []) ((Inv.scalar rfl).mpr inv) h hj
+    exact ⟨h1, [], by simpa using h2⟩
+
+/-- `root x = root t` (Var assignment between two root variables) -/
+theorem applyOp_setV_roots_keeps {σ : State} (inv : Inv σ []) (x t j : Nat) (hj : j ≠ x) :
+    KeepsRoot j σ (applyOp true σ (.setV ⟨x, []⟩ ⟨t, []⟩)).1 := by
+  simp only [applyOp, targetOf]
+  by_cases hx : x < σ.slots.length
+  · simp only [hx, if_true, srcLoc, srcOf, cloc, resolveConstLoc, Except.map, resolveMut, opBody, opSetV, srcVal, readLoc]
+    cases ht : σ.slots[t]? with
+    | none => exact KeepsRoot.refl j σ
+    | some src =>
+      simp only [parentOf, cycleGuard, wouldCycle]
+      cases ha : assignV σ (.slot x) src with
+      | error e => exact KeepsRoot.refl j σ
+      | ok σ' =>
+        have hlive : LiveV σ.heap src := inv.wf.liveV (Or.inl (by simpa using List.mem_of_getElem? ht))
+        obtain ⟨hslots, sub⟩ := assignV_slot_keeps inv hx hlive ha
+        exact ⟨by rw [hslots, List.getElem?_set_ne (Ne.symm hj)], [], by simpa using sub⟩
+  · simp only [hx, if_false]; exact KeepsRoot.refl j σ
+
 end AslModel.Var
